@@ -15,6 +15,12 @@ structure Src where
   chunk : Nat := 0
   /-- pm1 wraps its callback: an empty answer is replaced by `req` zero bytes -/
   zeroFill : Bool := false
+  /-- member sources of the archive reader (`lha_basic_reader_read_compressed`): the header
+  declares `extra` more bytes than are physically present in `data`; a request that would
+  cross the physical end fails as a whole (returns 0) and the source is dead from then on.
+  `extra = 0`, `dead = false` for a plain callback. -/
+  extra : Nat := 0
+  dead : Bool := false
 deriving Repr
 
 namespace Src
@@ -23,13 +29,15 @@ def remaining (s : Src) : Nat := s.data.size - s.pos
 
 /-- number of bytes the callback returns for a request of `req` bytes -/
 def grant (s : Src) (req : Nat) : Nat :=
-  let n := min req s.remaining
+  if s.dead then 0 else
+  let n := min req (s.remaining + s.extra)
   if s.chunk = 0 then n else min n s.chunk
 
 /-- `callback(buf, req, data)`: the bytes written to `buf` and the new source -/
 def read (s : Src) (req : Nat) : List UInt8 × Src :=
   let n := s.grant req
   if n = 0 ∧ s.zeroFill then (List.replicate req 0, s)
+  else if n > s.remaining then ([], { s with dead := true })
   else ((s.data.extract s.pos (s.pos + n)).toList, { s with pos := s.pos + n })
 
 end Src
